@@ -187,6 +187,43 @@ def check(ctx):
     ok = len(ft) == 1 and len(ft[0].args) >= 4 and eqv(ft[0].args[3], "results")
     ctx.ob("OWN.protected-set.use", ga, "finish_task receives that set as its `results`", ok)
     simple_scheduler_release(ctx)
+    # ---------------- round 4b (C03-m7): the diagnostics callbacks only read the scheduler state
+    from ..lib import eqv as _e4
+    MUT4 = {"add", "remove", "discard", "pop", "clear", "update", "intersection_update", "difference_update", "symmetric_difference_update", "append", "extend", "insert", "sort", "setdefault", "popitem", "reverse"}
+    n_cb4 = 0
+    for rel4 in ("dask/diagnostics/profile.py", "dask/diagnostics/progress.py", "dask/cache.py"):
+        m4 = ctx.model.module(rel4)
+        for cls4 in [n for n in m4.tree.body if isinstance(n, ast.ClassDef)]:
+            for fn4 in [n for n in cls4.body if isinstance(n, ast.FunctionDef) and n.name in ("_start_state", "_pretask", "_posttask", "_finish", "_start")]:
+                if "state" not in [a.arg for a in fn4.args.args]:
+                    continue
+                n_cb4 += 1
+                alias4 = {"state"}
+                for a4 in ast.walk(fn4):
+                    if isinstance(a4, ast.Assign) and len(a4.targets) == 1 and isinstance(a4.targets[0], ast.Name) and isinstance(a4.value, ast.Subscript) and isinstance(a4.value.value, ast.Name) and a4.value.value.id == "state":
+                        alias4.add(a4.targets[0].id)
+
+                def _is_state4(e):
+                    if isinstance(e, ast.Name):
+                        return e.id in alias4
+                    if isinstance(e, ast.Subscript):
+                        return _is_state4(e.value)
+                    return False
+
+                bad4 = []
+                for n4 in ast.walk(fn4):
+                    if isinstance(n4, ast.Call) and isinstance(n4.func, ast.Attribute) and n4.func.attr in MUT4 and _is_state4(n4.func.value):
+                        bad4.append(n4)
+                    elif isinstance(n4, ast.AugAssign) and _is_state4(n4.target):
+                        bad4.append(n4)
+                    elif isinstance(n4, (ast.Assign, ast.Delete)):
+                        for t4 in n4.targets:
+                            if isinstance(t4, ast.Subscript) and _is_state4(t4.value):
+                                bad4.append(n4)
+                ok = not bad4
+                ctx.ob("EFFECT.callbacks.state-readonly", bad4[0] if bad4 else fn4, f"{rel4}: {cls4.name}.{fn4.name} never mutates the scheduler state it is shown", ok, "" if ok else f"`{unparse(bad4[0])}` edits the scheduler's own bookkeeping (state['released'] etc.) from inside a callback: what the scheduler later reports as released/cached no longer matches what it did")
+    ctx.count("callback_hooks_with_state", n_cb4)
+    ctx.floor("callback_hooks_with_state", 4)
 
 
 VARIANTS = [
